@@ -31,6 +31,14 @@ list_search_unfolders = [extensions, or_op, expand, narrow]
 # Currently, multiple types can have identical search sids, which may lead to multiple useless runs.
 
 
+def is_alias_search(sid: Sid) -> bool:
+    """
+    True if the last value of the given Sid is an extension alias (which unfolds into multiple searches).
+    """
+    from spil.conf import extension_alias, sip  # type: ignore
+    return str(sid).split(sip)[-1] in extension_alias
+
+
 def apply_unfolders(sid: str, unfolders: List[Callable]) -> List[Sid]:
     """
     Takes the given sid, executes Search Sid "unfolders" (functions)
